@@ -127,7 +127,7 @@ def demand(comp, m):
 
 def check(comp, n, access, kind):
     """-> ('discard', why) | None | (sig, msg)"""
-    need = demand(comp, n + 1 if access == "index" else max(n, 1))
+    need = demand(comp, n + 1 if access != "take" else max(n, 1))
     bound = 2 * need + 8
     budget = 500_000 + 100_000 * need  # >= 10x the largest per-item cost measured on the pinned tree (filter through a lambda: ~7.6k line events per item)
     counter = [0]
@@ -136,7 +136,8 @@ def check(comp, n, access, kind):
     src = make_source(kind, bound, counter)
     stack = [src]
     ctx.stacks.append(stack)
-    text = "".join(CATALOGUE[c][0] for c in comp) + (f"{n}Ẏ" if access == "take" else f"{n}i")
+    # "index-swapped": the documented number-first operand order of the index element (n <list> i)
+    text = "".join(CATALOGUE[c][0] for c in comp) + (f"{n}Ẏ" if access == "take" else f"{n}i" if access == "index" else f"{n}$i")
     sig = f"C14:{'+'.join(comp)}:{access}:{kind}"
     try:
         r = harness.exec_py(_code(text), stack, ctx, budget=budget, wall=120)
@@ -194,7 +195,7 @@ def _shard_single(rec, arg):
     for name in names:
         for kind in CATALOGUE[name][2]:
             for n in ns_list:
-                for access in ("take", "index"):
+                for access in ("take", "index", "index-swapped"):
                     _do(rec, [name], n, access, kind, "catalogue-single")
     if names and names[0] == "map-ƛ":
         rec.sample({"composition": ["filter-'", "chunks-3"], "program": "'2%;3ẇ5Ẏ", "declared_demand": demand(["filter-'", "chunks-3"], 5)})
@@ -234,7 +235,7 @@ def _shard_hyp(rec, arg):
             rec.sample({"composition": comp, "n": n, "access": access, "source": kind, "declared_demand": demand(comp, n + 1)})
 
     campaign.hyp_run(t, {"comp": st.lists(st.sampled_from(names), min_size=2, max_size=3), "n": st.integers(0, 40),
-                         "access": st.sampled_from(["take", "index"]), "kind": st.sampled_from(["int", "int", "str"])}, seed, n_ex)
+                         "access": st.sampled_from(["take", "index", "index", "index-swapped"]), "kind": st.sampled_from(["int", "int", "str"])}, seed, n_ex)
 
 
 def run(rec, tier, seed):
@@ -257,7 +258,7 @@ def replay(case):
     if not isinstance(comp, list) or not (1 <= len(comp) <= 3) or any(c not in CATALOGUE for c in comp):
         return None
     n, access, kind = case.get("n"), case.get("access"), case.get("kind")
-    if not isinstance(n, int) or isinstance(n, bool) or not (0 <= n <= 40) or access not in ("take", "index") or kind not in ("int", "str"):
+    if not isinstance(n, int) or isinstance(n, bool) or not (0 <= n <= 40) or access not in ("take", "index", "index-swapped") or kind not in ("int", "str"):
         return None
     if not _valid(comp, kind):
         return None
